@@ -455,6 +455,9 @@ class LangServer:
                         rename_list += [None for _ in tmp_list]
                 elif type(use_info) is Import:
                     scope = use_info.scope
+                    # The scope of an IMPORT may not be known (statement outside an interface body)
+                    if scope is None:
+                        continue
                     # Add import candidates
                     import_var_list += child_candidates(
                         scope,
@@ -690,7 +693,7 @@ class LangServer:
                 tmp_list = []
                 if name_replace is None:
                     name_replace = candidate.name
-                for member in candidate.mems:
+                for member in interface_members(candidate):
                     tmp_text, _ = member.get_snippet(name_replace)
                     if tmp_list.count(tmp_text) > 0:
                         continue
@@ -949,7 +952,8 @@ class LangServer:
             param_num = opt_num
         signature = {"label": label, "parameters": params}
         if doc_str is not None:
-            doc_str = doc_str.format(langid=self.hover_language)
+            # Not str.format: documentation may contain braces of its own
+            doc_str = doc_str.replace("```{langid}", f"```{self.hover_language}", 1)
             signature["documentation"] = {"kind": "markdown", "value": doc_str}
         req_dict = {"signatures": [signature], "activeParameter": param_num}
         return req_dict
@@ -1056,11 +1060,14 @@ class LangServer:
         def_obj = self.get_definition(file_obj, def_line, def_char)
         if def_obj is None:
             return None
+        # Intrinsics are not declared in the workspace, they have no references
+        if isinstance(def_obj, Intrinsic):
+            return None
         # Determine global accessibility and type membership
         restrict_file = None
         type_mem = False
         if def_obj.FQSN.count(":") > 2:
-            if def_obj.parent.get_type() == CLASS_TYPE_ID:
+            if def_obj.parent is not None and def_obj.parent.get_type() == CLASS_TYPE_ID:
                 type_mem = True
             else:
                 restrict_file = def_obj.file_ast.file
@@ -1098,7 +1105,10 @@ class LangServer:
         def create_hover(string: str, docs: str | None):
             # This does not account for Fixed Form Fortran, but it should be
             # okay for 99% of cases
-            return fortran_md(string, docs).format(langid=self.hover_language)
+            # Not str.format: documentation may contain braces of its own
+            return fortran_md(string, docs).replace(
+                "```{langid}", f"```{self.hover_language}", 1
+            )
 
         # Get parameters from request
         params: dict = request["params"]
@@ -1128,7 +1138,7 @@ class LangServer:
                 )
             )
         elif var_type == INTERFACE_TYPE_ID:
-            for member in var_obj.mems:
+            for member in interface_members(var_obj):
                 hover_str, docs = member.get_hover(long=True)
                 if hover_str is not None:
                     hover_array.append(create_hover(hover_str, docs))
@@ -1173,15 +1183,19 @@ class LangServer:
         # Intrinsics do not have implementations we can access
         if isinstance(var_obj, Intrinsic):
             return None
+        # Top-level objects (modules, programs, ...) have no enclosing scope
+        if var_obj.parent is None:
+            return None
+        # Not every object can be linked to an implementation (e.g. generic bindings)
+        impl_obj = getattr(var_obj, "link_obj", None)
         # Construct implementation reference
         if var_obj.parent.get_type() == CLASS_TYPE_ID:
-            impl_obj = var_obj.link_obj
             if (impl_obj is not None) and (impl_obj.file_ast.file is not None):
                 return self._create_ref_link(impl_obj)
         elif var_obj.parent.get_type() == INTERFACE_TYPE_ID:
             # Find the first implementation of the interface
-            if var_obj.link_obj is not None:
-                return self._create_ref_link(var_obj.link_obj)
+            if impl_obj is not None:
+                return self._create_ref_link(impl_obj)
         return None
 
     def serve_rename(self, request: dict):
@@ -1205,7 +1219,7 @@ class LangServer:
         restrict_file = None
         type_mem = False
         if def_obj.FQSN.count(":") > 2:
-            if def_obj.parent.get_type() == CLASS_TYPE_ID:
+            if def_obj.parent is not None and def_obj.parent.get_type() == CLASS_TYPE_ID:
                 type_mem = True
             else:
                 restrict_file = def_obj.file_ast.file
@@ -1841,6 +1855,17 @@ class LangServer:
         except (URLError, KeyError):
             self.post_message("Failed to update the fortls", Severity.warn)
         return False
+
+
+def interface_members(obj) -> list:
+    """Members of a generic interface, also when it is reached through a procedure
+    pointer or a type-bound procedure that links to it"""
+    while obj is not None:
+        mems = getattr(obj, "mems", None)
+        if mems is not None:
+            return mems
+        obj = getattr(obj, "link_obj", None)
+    return []
 
 
 def update_recursion_limit(limit: int) -> None:
